@@ -20,7 +20,8 @@ CFG = dict(
          "parent ids, re-sent unchanged selectors; 45% of them are 'contested label' histories: 2-3 parents set the SAME label to DIFFERENT values, items leave "
          "that label to their parents, selectors tell the values apart, and UpdateLabels calls change ONLY the order or the multiplicity of an item's "
          "parent ids ([p,q]->[q,p], [p,p,q]->[p,q,q], [p,p]->[p,q]) with identical own labels, both selector-first and endpoint-first); (restr, 20%) selectors built by the real parser (all node types, nesting <= 3, "
-         "empty sets, !has, negated groups) with their real LabelRestrictions() and real Evaluate on 8 label maps; (ri, 10%) "
+         "empty sets, !has, negated groups; 40% are same-label expressions: nested &&/|| over ONE label with == alternatives and in{...} lists "
+         "written in non-ascending order with repeats, ORs as non-first operands of ANDs, ORs inside ORs) with their real LabelRestrictions() and real Evaluate on 12 label maps; (ri, 10%) "
          "AddSelector/DeleteSelector/AllPotentialMatches histories on the real LabelRestrictionIndex; (nv, 10%) Add/Remove/"
          "StrategyFor+Scan histories on the real LabelNameValueIndex; (np, 20%) UpdateEndpointOrSet/DeleteEndpoint/UpdateParentLabels/"
          "DeleteParentLabels histories on the real SelectorAndNamedPortIndex with the output of iterEndpointCandidates for generated "
